@@ -43,6 +43,7 @@ pub fn draw_refgen_cfg(r: &mut Rng, oracles: Oracles, benign: bool) -> RunCfg {
         status: if r.chance(1, 5) { r.range(1, 3) as u8 } else { 0 },
         label: false,
         tail_taken: 0,
+        dirty_medium: false,
     };
     RunCfg {
         vol,
